@@ -608,6 +608,7 @@ func TestWorker(t *testing.T) {
 			_ = afero.WriteFile(memfs, "/gsc20.yaml", []byte(c20scenarioYAML), 0o644)
 			_ = afero.WriteFile(memfs, "/gsc20f.yaml", []byte(c20failYAML), 0o644)
 			_ = afero.WriteFile(memfs, "/gsc20u.yaml", []byte(c20unknownYAML), 0o644)
+			_ = afero.WriteFile(memfs, "/gsc20n.yaml", []byte(c20namesYAML), 0o644)
 			_ = afero.WriteFile(memfs, "/gsc20t.yaml", []byte(c20illTypedYAML), 0o644)
 			_ = afero.WriteFile(memfs, "/gsc19.yaml", []byte(c19grpcScenarioYAML), 0o644)
 			r := &c20run{cell: rp.C20}
